@@ -12,7 +12,9 @@ def sh(*a, check=False):
 def findings(ref):
     rc, out = sh('git', 'show', ref + ':known_findings.json')
     return json.loads(out) if rc == 0 else {'findings': []}
-ours, theirs = findings('HEAD'), findings(b)
+# ours = the working-tree file (it may hold entries not committed yet)
+ours = json.load(open('known_findings.json')) if os.path.exists('known_findings.json') else findings('HEAD')
+theirs = findings(b)
 rc, out = sh('git', 'merge', '--no-commit', '--no-ff', b)
 print(out[-1500:])
 merged = dict(ours)
